@@ -138,6 +138,13 @@ pub(crate) fn stub_str_width(s: &str) -> usize {
     model_str_width(s)
 }
 
+/// Width of a string that is known to be printable ASCII (the ordered-list markers of `KDec::plain_like`
+/// are decimal digits, '-', '.', ')' and spaces): one column per byte.  Used where the string has a
+/// symbolic length, so that no per-character loop has to be unwound.
+pub(crate) fn stub_str_width_ascii(s: &str) -> usize {
+    s.len()
+}
+
 /// Byte-level version of the width model (no `chars()` decoding): the width
 /// of a well-formed UTF-8 string is the sum over lead bytes.  Agrees with
 /// `model_str_width` on the harness alphabet (checked by the self-test).
